@@ -1,17 +1,19 @@
 SPECIFICATION GSpecSim
 CONSTANTS NP = 3
-          NC = 8
+          NC = 12
           MaxPrio = 3
           Devs = {}
           Cfgs = {}
           Msgs = {}
+          GFamily = "pool"
+          GReplaces = {TRUE}
           GD = 1000
           GE = 7
           GLen = 1
           GPrios = {1}
-          GLimits = {1, 2, 3, 4}
-          GNormal = {1, 2, 3, 4, 5, 6}
-          GIgnored = {7, 8}
-          GBig = {2, 5}
+          GLimits = {1, 2, 3, 4, 5}
+          GNormal = {1, 2, 3, 4, 5, 6, 7, 8, 9, 10}
+          GIgnored = {11, 12}
+          GBig = {2, 5, 8}
           GKindSel = "all"
           GBsInit = {}
